@@ -29,6 +29,7 @@ fn main() {
     match args.get(1).map(|s| s.as_str()) {
         Some("exec") => exec(&args[2..]),
         Some("threads") => threads(&args[2..]),
+        Some("c16") => c16(&args[2..]),
         Some("c14") => {
             if args.len() < 3 {
                 die("c14 <pi hex> (<label> <json>)...");
@@ -172,12 +173,16 @@ fn call_shape(t: &TypeInfo, inst: *const u8, dir: Dir, shape: Shape, data: &[u8]
 
 fn threads(a: &[String]) {
     if a.len() < 5 {
-        die("threads <seed> <threads> <ops> <mode: shared|firstuse> <families,..> [grant]");
+        die("threads <seed> <threads> <ops> <mode: shared|firstuse|storm> <families,..> [grant]");
     }
     let seed: u64 = a[0].parse().unwrap_or_else(|_| die("seed"));
     let nt: usize = a[1].parse().unwrap_or_else(|_| die("threads"));
     let nops: usize = a[2].parse().unwrap_or_else(|_| die("ops"));
     let firstuse = a[3] == "firstuse";
+    // "storm": one thread drives volume through every shared instance (48 blocks each, in 8-block calls, so that
+    // whatever an instance builds or switches after its Nth block happens now) while all other threads keep cloning
+    // and converting those same instances and use the copies
+    let storm = a[3] == "storm";
     let fams: Vec<&str> = a[4].split(',').collect();
     if a.get(5).map(|s| s == "grant").unwrap_or(false) {
         cpufeatures::sim::set_miri_grant(true);
@@ -295,7 +300,48 @@ fn threads(a: &[String]) {
         })
         .collect();
     let mut programs: Vec<Vec<TOp>> = Vec::new();
-    for _ in 0..nt {
+    if storm {
+        let dir_of = |rng: &mut Prng, t: &TypeInfo| match t.role {
+            Role::Enc => Dir::Enc,
+            Role::Dec => Dir::Dec,
+            Role::Both => *rng.pick(&[Dir::Enc, Dir::Dec]),
+        };
+        let mut p0 = Vec::new();
+        for _round in 0..6 {
+            for (i, s) in shared.iter().enumerate() {
+                let t = &reg.types[s.ty];
+                let d = dir_of(&mut rng, t);
+                let data = rng.bytes(8 * t.block);
+                let e = expect(s.fam, &s.key, d, &data);
+                p0.push(TOp::Shared { inst: i, dir: d, shape: Shape::Blocks, data, expect: e });
+            }
+        }
+        programs.push(p0);
+        for _ in 1..nt.max(2) {
+            let mut prog = Vec::new();
+            for _round in 0..(nops + 2) {
+                for (i, s) in shared.iter().enumerate() {
+                    let t = &reg.types[s.ty];
+                    let d = dir_of(&mut rng, t);
+                    let data = rng.bytes(2 * t.block);
+                    let e = expect(s.fam, &s.key, d, &data);
+                    if t.role == Role::Enc && rng.chance(1, 2) {
+                        let f = &reg.families[s.fam];
+                        let vs = f.variants.iter().find(|v| v.enc == Some(s.ty)).unwrap();
+                        let (to, dir) = if rng.chance(1, 2) { (vs.both, *rng.pick(&[Dir::Enc, Dir::Dec])) } else { (vs.dec.unwrap(), Dir::Dec) };
+                        let e = expect(s.fam, &s.key, dir, &data);
+                        prog.push(TOp::ConvUse { inst: i, to, dir, data, expect: e });
+                    } else if t.clone.is_some() && rng.chance(5, 6) {
+                        prog.push(TOp::CloneUse { inst: i, dir: d, data, expect: e });
+                    } else {
+                        prog.push(TOp::Shared { inst: i, dir: d, shape: Shape::BlockB2b, data: data[..t.block].to_vec(), expect: e[..t.block].to_vec() });
+                    }
+                }
+            }
+            programs.push(prog);
+        }
+    }
+    for _ in 0..(if storm { 0 } else { nt }) {
         let mut prog = Vec::new();
         for (i, s) in shared.iter().enumerate() {
             let t = &reg.types[s.ty];
@@ -464,4 +510,211 @@ fn threads(a: &[String]) {
         std::process::exit(1);
     }
     println!("RESULT ok");
+}
+
+
+/// `c16 [--grant] <variant::Type>...` — the residue question for types as another machine lays them out and
+/// compiles them (the aarch64-only AES and Kuznyechik types above all). For every construction route: the byte
+/// positions at which the live images of two different keys differ must all read zero after `drop_in_place`.
+/// Every byte read here is a byte of storage the harness itself initialised before the value was written; a type
+/// with padding makes the interpreter stop at the first padding byte (typed writes de-initialise padding in its
+/// model) — the driver treats that as "not inspectable here", never as a finding.
+fn c16(names: &[String]) {
+    let reg = sim::registry::build();
+    install_quiet_panic_hook();
+    let mut names = names.to_vec();
+    if names.first().map(|s| s == "--grant").unwrap_or(false) {
+        cpufeatures::sim::set_miri_grant(true);
+        names.remove(0);
+    }
+    // --limit N: inspect only the first N bytes of each image (a union's inactive tail is uninitialised storage in
+    // the interpreter's model; the driver finds the initialised prefix by bisection with --probe runs)
+    let mut limit = usize::MAX;
+    let mut probe = false;
+    while names.first().map(|s| s.starts_with("--")).unwrap_or(false) {
+        match names.remove(0).as_str() {
+            "--limit" => limit = names.remove(0).parse().unwrap_or_else(|_| die("--limit N")),
+            "--probe" => probe = true,
+            _ => die("c16 [--grant] [--limit N] [--probe] <type>..."),
+        }
+    }
+    let mut rc = 0;
+    let mut slots = sim::mem::Slots::new();
+    let read = |p: *const u8, n: usize| -> Vec<u8> { (0..n.min(limit)).map(|i| unsafe { core::ptr::read_volatile(p.add(i)) }).collect() };
+    if probe {
+        // is the first `limit` bytes' worth of a freshly built instance readable?
+        let t = reg.types[reg.type_by_name(&names[0]).unwrap_or_else(|| die("no such type"))].clone();
+        let fam = &reg.families[reg.family(t.family).unwrap()];
+        let s = slots.alloc(0);
+        let p = slots.ptr(s);
+        let key: Vec<u8> = (0..fam.key_size).map(|i| i as u8).collect();
+        if !unsafe { (t.new_from_slice)(p, &key) } {
+            die("probe: constructor refused the key");
+        }
+        // chunk by chunk, reporting progress: if the interpreter stops at an uninitialised byte, the last line
+        // printed tells the driver how long the initialised prefix is
+        println!("@c16-probe {} size={}", t.name, t.size);
+        let mut off = 0;
+        while off < t.size.min(limit) {
+            let n = 16.min(t.size - off);
+            let chunk = read(unsafe { (p as *const u8).add(off) }, n);
+            std::hint::black_box(chunk.iter().fold(0u8, |a, b| a ^ b));
+            off += n;
+            println!("@c16-readable {}", off);
+        }
+        unsafe { (t.drop)(p) };
+        std::process::exit(0);
+    }
+    for name in &names {
+        let ty = match reg.type_by_name(name) {
+            Some(t) => t,
+            None => die(&format!("no type {}", name)),
+        };
+        let t = reg.types[ty].clone();
+        if !t.zeroize {
+            println!("@c16 {} - skipped (not built with zeroize)", t.name);
+            continue;
+        }
+        let fam = &reg.families[reg.family(t.family).unwrap()];
+        let mut klens = vec![fam.key_size];
+        for k in [fam.key_lens[0], *fam.key_lens.last().unwrap()] {
+            if !klens.contains(&k) {
+                klens.push(k);
+            }
+        }
+        // routes: (label, needs a source of which type (None: the type itself), by_ref / by_val / clone / clone_from)
+        #[derive(Clone, Copy, PartialEq)]
+        enum R {
+            New,
+            Clone,
+            CloneFrom,
+            ConvRef(usize),
+            ConvVal(usize),
+        }
+        let mut routes: Vec<(String, R)> = vec![("new_from_slice".into(), R::New)];
+        if t.clone.is_some() {
+            routes.push(("clone".into(), R::Clone));
+        }
+        if t.clone_from.is_some() {
+            routes.push(("clone_from".into(), R::CloneFrom));
+        }
+        for (ci, c) in reg.convs.iter().enumerate() {
+            if c.to == ty {
+                routes.push((format!("from_ref({})", reg.types[c.from].type_name), R::ConvRef(ci)));
+                routes.push((format!("from({})", reg.types[c.from].type_name), R::ConvVal(ci)));
+            }
+        }
+        for &klen in &klens {
+            let ka: Vec<u8> = (0..klen).map(|i| (i as u8).wrapping_mul(37).wrapping_add(11)).collect();
+            let kb: Vec<u8> = (0..klen).map(|i| (i as u8).wrapping_mul(91).wrapping_add(200)).collect();
+            for (label, r) in &routes {
+                for used in [false, true] {
+                    // build at `p` by this route from `key`; returns false if the route does not apply
+                    let mut build = |slots: &mut sim::mem::Slots, p: *mut u8, key: &[u8]| -> bool {
+                        unsafe {
+                            match *r {
+                                R::New => (t.new_from_slice)(p, key),
+                                R::Clone => {
+                                    let s = slots.alloc(0);
+                                    let sp = slots.ptr(s);
+                                    if !(t.new_from_slice)(sp, key) {
+                                        slots.free(s);
+                                        return false;
+                                    }
+                                    (t.clone.unwrap())(sp as *const u8, p);
+                                    (t.drop)(sp);
+                                    slots.free(s);
+                                    true
+                                }
+                                R::CloneFrom => {
+                                    let other: Vec<u8> = key.iter().map(|b| b ^ 0xA7).collect();
+                                    let s = slots.alloc(0);
+                                    let sp = slots.ptr(s);
+                                    if !(t.new_from_slice)(sp, key) || !(t.new_from_slice)(p, &other) {
+                                        slots.free(s);
+                                        return false;
+                                    }
+                                    (t.clone_from.unwrap())(sp as *const u8, p);
+                                    (t.drop)(sp);
+                                    slots.free(s);
+                                    true
+                                }
+                                R::ConvRef(ci) | R::ConvVal(ci) => {
+                                    let c = &reg.convs[ci];
+                                    let st = &reg.types[c.from];
+                                    let s = slots.alloc(0);
+                                    let sp = slots.ptr(s);
+                                    if !(st.new_from_slice)(sp, key) {
+                                        slots.free(s);
+                                        return false;
+                                    }
+                                    if matches!(*r, R::ConvRef(_)) {
+                                        (c.by_ref)(sp as *const u8, p);
+                                        (st.drop)(sp);
+                                    } else {
+                                        (c.by_val)(sp, p);
+                                    }
+                                    slots.free(s);
+                                    true
+                                }
+                            }
+                        }
+                    };
+                    let use_it = |p: *const u8| {
+                        let bs = t.block;
+                        let mut a: Vec<u8> = (0..3 * bs).map(|i| (i * 7 + 3) as u8).collect();
+                        for (dir, shape, n) in [(Dir::Enc, Shape::Blocks, 3usize), (Dir::Dec, Shape::Block, 1)] {
+                            if let Some(f) = t.call(dir) {
+                                let pa = a.as_mut_ptr();
+                                unsafe { f(p, shape, pa as *const u8, pa, n) };
+                            }
+                        }
+                    };
+                    println!("@c16-begin {} {} klen={} used={}", t.name, label, klen, used);
+                    let mut images: Vec<Vec<u8>> = Vec::new();
+                    let mut applicable = true;
+                    for key in [&ka, &kb] {
+                        let s = slots.alloc(0);
+                        let p = slots.ptr(s);
+                        if !build(&mut slots, p, key) {
+                            applicable = false;
+                            slots.free(s);
+                            break;
+                        }
+                        if used {
+                            use_it(p as *const u8);
+                        }
+                        images.push(read(p as *const u8, t.size));
+                        unsafe { (t.drop)(p) };
+                        slots.free(s);
+                    }
+                    if !applicable {
+                        println!("@c16 {} {} klen={} used={} - route not applicable", t.name, label, klen, used);
+                        continue;
+                    }
+                    let kdep: Vec<usize> = (0..images[0].len()).filter(|&i| images[0][i] != images[1][i]).collect();
+                    let s = slots.alloc(0);
+                    let p = slots.ptr(s);
+                    build(&mut slots, p, &ka);
+                    if used {
+                        use_it(p as *const u8);
+                    }
+                    unsafe { (t.drop)(p) };
+                    let after = read(p as *const u8, t.size);
+                    slots.free(s);
+                    let bad: Vec<usize> = kdep.iter().copied().filter(|&i| after[i] != 0).collect();
+                    if bad.is_empty() {
+                        println!("@c16 {} {} klen={} used={} ok key_dependent={}", t.name, label, klen, used, kdep.len());
+                    } else {
+                        println!(
+                            "@c16 {} {} klen={} used={} RESIDUE {} of {} key-dependent bytes non-zero after drop, first offsets {:?}",
+                            t.name, label, klen, used, bad.len(), kdep.len(), &bad[..bad.len().min(8)]
+                        );
+                        rc = 1;
+                    }
+                }
+            }
+        }
+    }
+    std::process::exit(rc);
 }
